@@ -142,7 +142,7 @@ def run_unit(unit, rec):
                         _v(rec, "e", dict(sig, mode=mode, **exc_sig(e)), "error=%r raised %r for an out-of-gamut target" % (mode, e), case, script=_script(spec, t, error=mode))
                         continue
                 mn, mx = np.asarray(mn, dtype=float), np.asarray(mx, dtype=float)
-                opt, xs = O.box_lsq(Abar, t, lo, hi, c0=c0) if n <= 6 else O.box_lsq_certified(Abar, t, lo, hi, c0=c0)[::2]
+                opt, xs, _ = O.box_lsq_bounds(Abar, t, lo, hi, c0=c0)
                 val = float(np.linalg.norm(Abar @ mn + c0 - t))
                 okv = np.array_equal(mn, mx) and val <= opt + 2e-2 and np.all(mn >= lo - 0.01 * rng_) and np.all(mn <= hi + 0.01 * rng_)
                 if mode == "warn" and not any(issubclass(w.category, RuntimeWarning) for w in wl):
